@@ -23,16 +23,6 @@ impl vstd::std_specs::core::IndexSpecImpl<Match> for [u8] {
     }
 }
 
-/// strip(line, lt): `line` without a trailing terminator (exactly `lt`'s byte sequence)
-pub open spec fn strip(line: Seq<u8>, lt: LineTerminator) -> Seq<u8> {
-    let t = lt.seq_view();
-    if line.len() >= t.len() && line.subrange(line.len() - t.len(), line.len() as int) == t {
-        line.subrange(0, line.len() - t.len())
-    } else {
-        line
-    }
-}
-
 // ASSUMPTION (T-std): `#[derive(PartialEq)]` on LineTerminatorImp is structural equality.
 impl vstd::std_specs::cmp::PartialEqSpecImpl for LineTerminatorImp {
     open spec fn obeys_eq_spec() -> bool { true }
